@@ -166,7 +166,7 @@ CLAIMED = {
         "signatures: every key-addressed method accepts every argument pack Client accepts, performs exactly one inner call of the same "
         "method with the caller's bound arguments, returns the inner result / raises the inner exception unchanged; _create_client "
         "forwards every shared configuration option. RetryingClient's __getattr__ forwarding is re-proved as dep:C17.",
-   note="HashClient single-key methods are covered the same way; HashClient.__init__/add_server: every parameter shared with the per-server client class (read from both signatures) is forwarded under its own name with the caller's value, ignore_exc is not, the right class is built with exactly the stored options; set_many/get_many/gets_many: one inner call per batch with that batch and the caller's arguments. A differential bounded replay against a plain Client decides undecided VCs and stands in for out-of-reach functions. Trusted: call binding, pool contracts, client_class is Client.",
+   note="HashClient single-key methods are covered the same way; HashClient.__init__/add_server: every parameter shared with the per-server client class (read from both signatures) is forwarded under its own name with the caller's value, ignore_exc is not, the right class is built with exactly the stored options; set_many/get_many/gets_many: one inner call per batch with that batch and the caller's arguments. Client.__init__ and PooledClient.__init__ store every argument in the field of its own name (server normalised, str prefix as ASCII bytes, missing serde -> LegacyWrappingSerde, connection starts closed, pool built from _create_client and the pool options), and wrapper constructor defaults equal Client's (compared on the AST). A differential bounded replay against a plain Client decides undecided VCs and stands in for out-of-reach functions. Trusted: call binding, pool contracts, client_class is Client.",
    technique="contract-based deductive verification: call-binding VCs against signatures read from the AST (z3)",
    ref="5 C16"),
  "C07": dict(
